@@ -357,8 +357,10 @@ def _(tmp):
     edit(tmp, "src/asm/defs/ruledef_map.rs", lambda s: rename_in_fn(s, "query_prefixed", {"i": "n", "j": "m", "subprefix": "probe", "results": "found"}))
 
 
-def run_case(c):
+def run_case(c, only_prop=None):
     name, props, fn = c
+    if only_prop is not None:
+        props = [only_prop]
     tmp = tempfile.mkdtemp(prefix="casm-neutral-")
     try:
         subprocess.run(["rsync", "-a", "--exclude", "target", "--exclude", ".git", "/repo/", tmp + "/"], check=True)
